@@ -185,15 +185,13 @@ theorem run_pframe (ρ : List FunDef) : ∀ (f : Nat) (j : Job) (s : St), PFrame
         simp only [run]
         refine withFnCall_pframe _ _ (fun s0 _ => ?_)
         refine bnd_pframe _ _ _ (ih _ _) (fun l t => ?_)
-        have htag : PFrame t (tagParamAlias e t l) := by
+        have htag : PFrame t (tagParamAlias t l) := by
           unfold tagParamAlias
           split
-          · split
-            · exact PFrame.of_eq rfl rfl
-            · exact PFrame.refl t
+          · exact PFrame.of_eq rfl rfl
           · exact PFrame.refl t
-        have hc : PFrame (tagParamAlias e t l) (cloneIfNecessary (tagParamAlias e t l) l).2 := pframe_clone _ _
-        generalize cloneIfNecessary (tagParamAlias e t l) l = rc at hc ⊢
+        have hc : PFrame (tagParamAlias t l) (cloneIfNecessary (tagParamAlias t l) l).2 := pframe_clone _ _
+        generalize cloneIfNecessary (tagParamAlias t l) l = rc at hc ⊢
         obtain ⟨oc, t2⟩ := rc
         cases oc <;> simp only [bnd] <;> try exact htag.trans hc
         rename_i l2
